@@ -32,7 +32,7 @@ NAMES = ['secret', 'secret_key', 'db_secret_url', 'my_secretX', 'token', 's', 'p
          'page_title']      # page_title: also the name of one of the meta application's own resources
 KINDS = ['str', 'bytes', 'int', 'nested', 'reprobj', 'longstr']
 MOUNTS = ['/_meta/', '/m', '/', 'deep']
-MWSETS = ['none', 'cookie', 'custom']
+MWSETS = ['none', 'cookie', 'custom', 'subclass', 'provides-shapes']
 VIEWS = ['html', 'json']
 COOKIE_KEY = b'ZQCOOKIEKEY77abc'
 EXC_TYPES = ['ValueError', 'KeyError', 'RuntimeError', 'OSError', 'ZeroDivisionError', 'NotImplementedError', 'CustomError',
@@ -171,6 +171,31 @@ def build_host(resources, mwset, mount, meta=None):
             def request(self, next):
                 return next()
         mws = [Custom(), SignedCookieMiddleware(secret_key=COOKIE_KEY, arg_name='sess')]
+    elif mwset == 'subclass':
+        # the host's own flavour of the cookie middleware, nothing overridden
+        class HostCookie(SignedCookieMiddleware):
+            pass
+        mws = [HostCookie(secret_key=COOKIE_KEY)]
+    elif mwset == 'provides-shapes':
+        # provides given as other iterables than a tuple - clastic only ever iterates it
+        class PF(Middleware):
+            provides = frozenset(['zq_f'])
+
+            def request(self, next):
+                return next(zq_f=1)
+
+        class PK(Middleware):
+            provides = {'zq_k': None}.keys()
+
+            def request(self, next):
+                return next(zq_k=1)
+
+        class PL(Middleware):
+            provides = ['zq_l']
+
+            def request(self, next):
+                return next(zq_l=1)
+        mws = [PF(), PK(), PL()]
     meta = meta or MetaApplication()
     if mount == 'deep':
         host = Application(routes + [('/m', meta)], resources=dict(resources), middlewares=mws)
